@@ -18,6 +18,8 @@ CLAIMED = {
             "M<=2 bins, 2-3 operands, adaptive bin counts 0..2, |A|<=2,|B|=1, N<=2 chunked values (quick); M<=3, counts 0..3, N<=3 (thorough). Real dask scheduling is outside (see C17)", "DESIGN.md 5/C05"),
     "C14": ("Bounded symbolic model checking of the statistics block of calculate_1d_frequencies, Histogram1D.fill/fill_n/copy, Statistics.__add__/__mul__/mean/variance/std: the recorded sum, sum2, weight, min, max (and median after unweighted construction) equal the weighted sums over the raw symbolic data for every way of entering them; mean/variance/std are proved to be the population moments as functions of those fields; invalidation (NaN) after subtraction, array arithmetic, bare frequencies; empty histogram.",
             "N<=2 values (quick) / N<=3, M=2 bins; QF_NRA degree<=3", "DESIGN.md 5/C14"),
+    "C16": ("Bounded symbolic model checking of densities, bin_sizes, total_width/total_size, left/right/centre/width properties (per-axis and mesh forms), cumulative_frequencies, and bin_sizes of the seven transformed classes: for all symbolic irregular edges and contents densities*bin_sizes = frequencies, bin_sizes equals the statement's measure formula (cos uninterpreted with sound axioms), measures are additive under merging of adjacent bins and sum to the measure of the covered region for full angular ranges.",
+            "M<=3 bins 1D, shapes 2x2 / 2x1x2 (quick) + 3x2 / 2x2x2 (thorough), <=2 bins per axis for transformed classes; QF_NRA + UF", "DESIGN.md 5/C16"),
 }
 
 REASONS_NOT_YET = "check not built yet (work in progress; see DESIGN.md section 8 build order)"
